@@ -78,6 +78,7 @@ class FnInfo:
     n_loops: int = 0        # loops in the real body
     n_closures: int = 0     # closures in the real body that no directive annotates or replaces (Verus exports nothing about their result)
     shape_changed: str = ''  # non-empty: the body has loops / closures the contracts were not written for
+    callees: List[str] = field(default_factory=list)   # names the real body calls (functions, methods, macros)
 
 
 def line_of(src: str, pos: int) -> int:
@@ -436,6 +437,13 @@ def process_fn(src: str, src_file: str, it: rustscan.Item, dirs: List[Directive]
                 if ini is None:
                     raise Undecided('for without in')
                 edits.append(Edit(st[ini].end, st[ini].end, ' %s:' % la[1], 'real'))
+                # D8: `for x in &E` is read as `for x in (E).iter()`.  For the std collections `impl IntoIterator for
+                # &C` IS `self.iter()`; vstd specifies `iter()` fully and the `&C` form only weakly, and the invariants
+                # of a named-iterator loop are written against the iterator `iter()` returns.
+                if st[ini + 1].text == '&' and st[ini + 2].text != 'mut':
+                    edits.append(Edit(st[ini + 1].start, st[ini + 1].end, '(', 'real', 'D8'))
+                    edits.append(Edit(st[bi - 1].end, st[bi - 1].end, ').iter()', 'real', 'D8'))
+                    drops.append('D8 `for .. in &E` read as `(E).iter()`')
             text = '\n'.join(d.payload)
             edits.append(Edit(st[bi].start, st[bi].start, '\n' + text + '\n', 'loop%d:%s:%d' % (n, info.fn, d.line)))
             info.n_invariants += count_clauses(text, 'invariant')
@@ -677,6 +685,31 @@ def process_fn(src: str, src_file: str, it: rustscan.Item, dirs: List[Directive]
             ncl += 1
     info.n_loops = len(loops)
     info.n_closures = ncl
+    # vocabulary: what the real body calls.  `name(`, `.name(`, `path::name(`, `name::<..>(` and `name!`; capitalised
+    # names (types, enum variants, tuple structs) and keywords are left out
+    KW = {'if', 'while', 'match', 'return', 'for', 'loop', 'in', 'as', 'let', 'else', 'move', 'fn', 'mut', 'ref', 'break', 'continue', 'await', 'async', 'unsafe', 'where', 'impl', 'dyn', 'self', 'Self', 'super', 'crate'}
+    cal = set()
+    for i in range(body_open_i + 1, body_close_i):
+        t = st[i]
+        if t.kind != 'ident' or t.text in KW or handled(t.start):
+            continue
+        nx = st[i + 1]
+        is_call = nx.text == '(' or (nx.text == ':' and st[i + 2].text == ':' and st[i + 3].text == '<')
+        is_macro = nx.text == '!' and st[i + 2].text in ('(', '[', '{')
+        if is_macro:
+            if t.text != 'log' and not (i >= 3 and st[i - 3].text == 'log'):
+                cal.add(t.text + '!')
+        elif is_call and not t.text[0].isupper():
+            pv, pv2 = st[i - 1], st[i - 2]
+            if pv.text == '.':
+                cal.add('.' + t.text)                       # method call
+            elif pv.text == ':' and pv2.text == ':' and st[i - 3].kind == 'ident':
+                cal.add(st[i - 3].text + '::' + t.text)     # path call: the last two segments (`u8::from`, `Bytes::from`)
+            elif pv.text == ':' and pv2.text == ':' and st[i - 3].text == '>':
+                cal.add('<..>::' + t.text)
+            else:
+                cal.add(t.text)
+    info.callees = sorted(cal)
     addressed = set()
     for d in dirs:
         if d.kind in ('loop', 'loop?'):
@@ -684,9 +717,9 @@ def process_fn(src: str, src_file: str, it: rustscan.Item, dirs: List[Directive]
     notes = []
     bare = [i for i in range(1, len(loops) + 1) if i not in addressed]
     if bare:
-        notes.append('%d loop(s) in the body, the contracts carry invariants for %d' % (len(loops), len(addressed)))
+        notes.append('has %d loop(s), the contracts carry invariants for %d' % (len(loops), len(addressed)))
     if ncl:
-        notes.append('%d closure(s) whose result Verus leaves unconstrained (no annotation in the contracts)' % ncl)
+        notes.append('has %d closure(s) whose result Verus leaves unconstrained (no annotation in the contracts)' % ncl)
     info.shape_changed = '; '.join(notes)
 
 
